@@ -601,7 +601,9 @@ def prove_finalize(src_root, ex: Explorer):
     def path(ctx: Ctx):
         it = mk(src_root, ctx)
         w = mk_network(it, ctx)
-        typ = ['P', 'D', 'F'][ctx.choose(3, 'type')]
+        # 'Q': a type byte that is none of the three (a hostile or corrupted PeerInit): it is treated like a message connection - its
+        # reader runs, so the close of the peer is noticed (C02)
+        typ = ['P', 'D', 'F', 'Q'][ctx.choose(4, 'type')]
         up, down = Opaque('shared upload limiter'), Opaque('shared download limiter')
         w.net.attrs.update(_upload_rate_limiter=up, _download_rate_limiter=down)
         c = Obj(cls(it, CONN, 'PeerConnection'))
